@@ -202,7 +202,7 @@ func raceWitnessCases(r *corr.Run, accts []*acct) {
 	}
 	probe := func(w *nodeWorld, from *nstream) {
 		// the delivery oracle for the streams that still hold the patterns
-		w.publish(from, pubOpts{space: "s1", topic: "a", ident: from.ident})
+		w.publish(from, pubOpts{space: "s1", topic: "a", ident: from.ident, keyed: true})
 		w.publish(from, pubOpts{space: "s1", topic: "a/b", ident: from.ident})
 	}
 	finish := func(w *nodeWorld, name string) {
@@ -319,6 +319,7 @@ func nodeCase(r *corr.Run, accts []*acct, steps int) {
 			}
 			o.badIdLen = r.Chance(3)
 			o.big = r.Chance(3)
+			o.keyed = r.Chance(50) // spaces with a read key stamp a keyId the signature covers
 			w.publish(s, o)
 		case x < 84:
 			w.setMember(pick(r, spaces), pick(r, accTokens), r.Chance(50))
@@ -441,7 +442,7 @@ func clientCase(r *corr.Run, accts []*acct, steps int) {
 			}
 		}
 	}
-	nextId := 1
+	nextId := 0 // the first fresh ids are the corner byte patterns (all zero, all 0xff, …)
 	var used []int
 	for i := 0; i < steps; i++ {
 		var live []*clientSub
@@ -537,6 +538,35 @@ func clientCase(r *corr.Run, accts []*acct, steps int) {
 	}
 }
 
+// dedupWitnessCase: corner message ids and the ring boundary, on every run. The specification ring
+// (last dedupSize recorded ids) decides what counts as a replay, so the stated limit — an id is
+// forgotten after dedupSize newer ones — is respected.
+func dedupWitnessCase(r *corr.Run, accts []*acct) {
+	w := newClientWorld(r, accts)
+	defer w.shutdown()
+	for _, a := range accTokens {
+		w.setMember("s1", a, true)
+	}
+	w.subscribe("s1", ">")
+	recv := func(id int) {
+		w.receive(recvOpts{space: "s1", topic: "a/b", signer: "A1", tamper: "none", ts: "fresh", id: id})
+	}
+	for _, corner := range []int{0, 1, 2} {
+		recv(corner)      // recorded
+		recv(10 + corner) // one other new message
+		recv(corner)      // replay of the corner id: still inside the ring, must be refused
+	}
+	// around the ring size: newer ids between original and replay (each receive is followed by one
+	// own publish that also takes a slot)
+	recv(50)
+	recv(51)
+	recv(52)
+	recv(50)
+	recv(53)
+	recv(50)
+	r.Case("DW "+fmt.Sprint(w.ops), true)
+}
+
 func (w *clientWorld) ownerTok(symTopic string) string {
 	o := naiveOwner(symTopic)
 	for _, a := range accTokens {
@@ -551,6 +581,12 @@ func Run(r *corr.Run) {
 	r.SetRule("trie/topic: every string over segments {a,b,acc,*,>,empty} up to 4 segments plus boundary strings (length 255..257, 15..18 segments, misplaced wildcards) through both validators, splitTopic, TopicOwner; every (valid pattern, string) pair on the real trie against the segment-wise rule; the trie of all valid patterns matched against every string; random add/remove/match sequences with refcounts. service: random operation sequences (subscribe / unsubscribe / publish in all rejection classes / member change / evict / revalidate / close-space / stream close / write-side kill followed by frames) over up to 3 streams, 2 spaces (+2 malformed ids), 3 accounts on the real service in the relay role with fake streams in its real stream pool, each ending in a randomised teardown; client receive path with forged / stale / replayed / foreign-namespace frames. A case is non-trivial when it has >= 10 steps (and >= 2 streams on the serving side); distinct = distinct op sequences")
 	runTrieStream(r)
 	accts := newAccts(r, 4)
+	dedupWitnessCase(r, accts)
+	for _, keyed := range []bool{true, false} {
+		for _, tp := range [][2]string{{"a/>", "a/b"}, {"a/*", "a/b/a"}, {"acc/*", "acc/A0"}} {
+			e2eCase(r, accts, keyed, tp[0], tp[1])
+		}
+	}
 	witnessCases(r, accts)
 	raceWitnessCases(r, accts)
 	nNode, nClient := r.Pick(600, 14000), r.Pick(300, 7000)
